@@ -843,6 +843,20 @@ impl Real {
                         let mut x = bytes.clone();
                         if b < x.len() && v < 256 { x[b] = v as u8; Some(x) } else { None }
                     }),
+                    // two bytes changed at once: the same mask on both (differences that cancel under an xor-folding comparison)
+                    "xor2" => num(0).zip(num(1)).zip(num(2)).and_then(|((a, b), m)| {
+                        let mut x = bytes.clone();
+                        if a < x.len() && b < x.len() && a != b && m > 0 && m < 256 { x[a] ^= m as u8; x[b] ^= m as u8; Some(x) } else { None }
+                    }),
+                    // … or +d on one and -d on the other (differences that cancel under an additive comparison)
+                    "addsub" => num(0).zip(num(1)).zip(num(2)).and_then(|((a, b), d)| {
+                        let mut x = bytes.clone();
+                        if a < x.len() && b < x.len() && a != b && d > 0 && d < 256 { x[a] = x[a].wrapping_add(d as u8); x[b] = x[b].wrapping_sub(d as u8); Some(x) } else { None }
+                    }),
+                    // the whole tag / one whole masked seed replaced by pseudo-random bytes (a comparison that looks at fewer
+                    // than all the bits of the tag accepts some of them)
+                    "rand_tag" => num(0).map(|sd| { let mut r = crate::util::SplitMix64::new(sd as u64 ^ 0x7A6); for t in w.tag.iter_mut() { *t = r.below(256) as u8; } w.write() }),
+                    "rand_f" => num(0).zip(num(1)).and_then(|(a, sd)| { if a < w.encs.len() { let mut r = crate::util::SplitMix64::new(sd as u64 ^ 0xF00D); for t in w.encs[a].1.iter_mut() { *t = r.below(256) as u8; } Some(w.write()) } else { None } }),
                     "swap_trap" => num(0).zip(num(1)).and_then(|(a, b)| { if a < w.c.len() && b < w.c.len() { w.c.swap(a, b); Some(w.write()) } else { None } }),
                     "drop_trap" => num(0).and_then(|a| { if a < w.c.len() { w.c.remove(a); Some(w.write()) } else { None } }),
                     "dup_trap" => num(0).and_then(|a| { if a < w.c.len() { let t = w.c[a].clone(); w.c.push(t); Some(w.write()) } else { None } }),
